@@ -375,6 +375,13 @@ def operator_call(tr, opname, ops, n, callee):
             return r if opname == 'operator==' else '(!%s)' % r
         if ka == 'opt' and kb == 'opt':
             tr.bad('optional comparison', n)
+        if ka == 'opt' and map_type(q0).elem.klass == 'str' and kb is None:
+            # std::optional<std::string> == "literal": engaged and equal
+            k1, e1 = argkind(tr, ops[1])
+            if k1 in ('p', 'sv'):
+                lhs = tr.e(ops[0])
+                r = '(%s.has && sv_eq(str_sv(&%s.v), %s))' % (lhs, lhs, e1 if k1 == 'sv' else 'sv_from_cstr(%s)' % e1)
+                return r if opname == 'operator==' else '(!%s)' % r
         return None
     if opname == 'operator<=>':
         return None
